@@ -694,7 +694,7 @@ def correspond(ctx):
                 borrowed_set = [v for v in got_rows if v not in base]
                 impl_head = "fitted %s|%s|%s|" % (fl(rows), fl(sy), "none" if est.seen_w is None else fl(est.seen_w))
                 # full rows (all features) must be the training rows themselves
-                if not (est.seen_X == X[got_rows]).all():
+                if not numpy.array_equal(est.seen_X, X[got_rows]):
                     corr.disagree("fit-rows-content", desc, "rows of X", "different feature values")
             else:
                 impl_head, borrowed_set = "unfitted", []
@@ -845,9 +845,9 @@ def check_recording(ctx, gen_seed, kind, label_type="int", njobs_list=(None, 1, 
                 rows = [int(v) for v in e.seen_X[:, 0]]
                 extra = [r_ for r_ in rows if r_ not in set(want)]
                 base = [r_ for r_ in rows if r_ in set(want)]
-                okc = (base == want and rows == sorted(rows) and (e.seen_X == X[rows]).all()
+                okc = (base == want and rows == sorted(rows) and numpy.array_equal(e.seen_X, X[rows])
                        and list(map(str, e.seen_y)) == list(map(str, y[rows]))
-                       and ((e.seen_w is None) == (w is None)) and (w is None or (e.seen_w == w[rows]).all()))
+                       and ((e.seen_w is None) == (w is None)) and (w is None or numpy.array_equal(e.seen_w, w[rows])))
                 if kind == "reg" and extra:
                     okc = False
                 if not okc:
@@ -1026,7 +1026,13 @@ def search(ctx, hints):
     for t in range(ctx.pick(2, 6)):
         items.append({"kind": "schedule", "gen_seed": rng.randrange(1 << 30)})
     for it in items:
-        bad, info = _run(ctx, it)
+        try:
+            bad, info = _run(ctx, it)
+        except Exception as e:      # the real code raised where the statement promises a result
+            import traceback
+            bad, info = [(K_RAISE, "the estimator raises on a valid configuration",
+                          "%s: %s | %s" % (type(e).__name__, str(e)[:150], traceback.format_exc()[-300:]),
+                          "a result")], {}
         evals += 1
         if not info.get("skipped"):
             nontriv.add((it["kind"], it["gen_seed"]))
